@@ -26,6 +26,9 @@ import (
 
 func genC06(r *core.Rand, p *core.Plan) {
 	p.Sched = []string{"rtb0", "rtb1", "random", "rtb3", "pct"}[r.Intn(5)]
+	if r.Chance(1, 2) {
+		p.Cfg["btcd_rescan"] = 1 // the backend matches spends by watched outpoint only
+	}
 	m := []int64{1, 2, 3, 5}[r.Intn(4)]
 	p.Cfg["maturity"] = m
 	// addresses on every default scope of account 0, a second account, then funds
@@ -62,7 +65,19 @@ func genC06(r *core.Rand, p *core.Plan) {
 		case 9:
 			// the chain moves while the wallet is off: the restarted wallet
 			// must judge confirmations against the chain it finds
-			p.Ops = append(p.Ops, core.Op{K: "sync"}, core.Op{K: "stop"})
+			p.Ops = append(p.Ops, core.Op{K: "sync"})
+			if r.Chance(1, 2) {
+				// a payment without change, still unconfirmed when the wallet
+				// stops and confirmed while it is down: only the watched
+				// outpoints tell the restarted wallet about it
+				s6 := genSend6(r, 0)
+				s6.A[6], s6.A[1], s6.A[10] = 2, 1, 1
+				p.Ops = append(p.Ops, s6, core.Op{K: "stop"},
+					core.Op{K: "mine", A: []int64{1, 100, -1, 600, int64(r.Uint64() >> 1)}},
+					core.Op{K: "start"}, core.Op{K: "sync"}, genSend6(r, 0))
+				continue
+			}
+			p.Ops = append(p.Ops, core.Op{K: "stop"})
 			if r.Chance(2, 3) {
 				d := r.Range(1, 2)
 				p.Ops = append(p.Ops, core.Op{K: "reorg", A: []int64{int64(d), int64(d + r.Range(0, 1)), int64(r.Range(0, 100)), int64(r.Uint64() >> 1)}})
@@ -113,7 +128,7 @@ func genSend6(r *core.Rand, t int) core.Op {
 		mode = []int64{0, 0, 1}[r.Intn(3)]
 	}
 	return core.Op{K: "send6", T: t, A: []int64{int64(r.Range(1, 60)) * 1e5, minconfs[r.Intn(len(minconfs))], int64(r.Range(1, 40)) * 1000,
-		int64(r.Range(-1, 3)), int64(r.Intn(2)), int64(r.Intn(2)), mode, int64(r.Intn(16)), int64(r.Range(1, 3)), int64(r.Uint64() >> 1)}}
+		int64(r.Range(-1, 3)), int64(r.Intn(2)), int64(r.Intn(2)), mode, int64(r.Intn(16)), int64(r.Range(1, 3)), int64(r.Uint64() >> 1), 0}}
 }
 
 // coin is a wallet output as derived from the node's ground truth.
@@ -294,7 +309,18 @@ func (rs *runState) send6(task, step int, op core.Op) {
 			if len(elig) == 0 {
 				return
 			}
-			explicit = []wire.OutPoint{elig[pick%len(elig)].op}
+			c := elig[pick%len(elig)]
+			explicit = []wire.OutPoint{c.op}
+			if op.Arg(10) == 1 {
+				// spend the coin whole: what is left after the fee is dust and
+				// goes to the miner, so the payment has no output back to the
+				// wallet
+				if v := c.value - int64(fee)*130/1000 - 100; v > 2000 {
+					x.foreignN++
+					outs = []*wire.TxOut{{Value: v, PkScript: foreignScript(x.foreignN)}}
+					env.Count("probe.send-without-change-requested")
+				}
+			}
 		} else {
 			// ineligible: a coin failing one filter, an already spent output, or
 			// a foreign outpoint
